@@ -74,6 +74,8 @@ fn solve<T: Sc>(t: &mut Toks, cx: &mut Ctx) -> String {
                         let bn = b.vec.iter().map(|v| v.mag64()).fold(0.0, f64::max);
                         let mut rn = 0.0f64;
                         for i in 0..n { let mut s = T::zero(); for j in 0..n { s += rows[i][j] * x[j]; } rn = rn.max((s - b[i]).mag64()); }
+                        // (an oracle evaluation that itself overflows decides nothing)
+                        if !(rn.is_finite() && (an * xn + bn).is_finite()) { cx.meta("oracle_overflow", 1); continue; }
                         cx.check(rn <= 1e-11 * (an * xn + bn) + 1e-300, &format!("{}: backward error {:e} too large", name, rn / (an * xn + bn + 1e-300)));
                         // the bound of theorem C01F.solveLU_backward, evaluated on this run (standard model, u = 2^-53; for
                         // Complex<f64> the operations are composite: 8u): |b - A x|_i <= (g_n + g_3n) (P^T |L||U| |x|)_i, plus the
@@ -95,7 +97,7 @@ fn solve<T: Sc>(t: &mut Toks, cx: &mut Ctx) -> String {
                                 let mut s = T::zero(); let mut absum = b[i].mag64();
                                 for j in 0..n { s += rows[i][j] * x[j]; absum += rows[i][j].mag64() * xa[j]; }
                                 let res = (s - b[i]).mag64();
-                                let bound = cst * w[row_of] + g(n + 2) * absum;
+                                let bound = cst * w[row_of] + g(n + 2) * absum + (n as f64 + 2.0) * f64::MIN_POSITIVE;   // + underflow slack (subnormal products are not relatively accurate)
                                 if bound.is_finite() && !(res <= bound) { ok = false; worst = worst.max(res / bound.max(1e-300)); }
                             }
                             cx.meta("lu_backward_bound_checked", 1);
@@ -158,7 +160,12 @@ fn solve_f<T: Sc>(t: &mut Toks, cx: &mut Ctx, conv: impl Fn(&T) -> Option<(Q, Q)
             let r = guarded(|| exact_det_rank(&rows));
             if let Ok((det, _)) = r {
                 cx.meta("singular", det.is_zero() as usize);
-                if !det.is_zero() { cx.check(ok1 && ok2 && finite, "nonsingular system was not solved (panic or non-finite result)"); }
+                if !det.is_zero() {
+                    // (the same class as in solve_ns: nonsingular in exact arithmetic, but a computed pivot sub-column is exactly zero)
+                    let numsing = guarded(|| ref_zero_pivot_column(&a)).unwrap_or(false);
+                    cx.meta("numerically_singular", numsing as usize);
+                    let tag = if numsing { " [numerically singular to working precision: a computed pivot sub-column is exactly zero, Gaussian elimination cannot proceed in this arithmetic]" } else { "" };
+                    cx.check(ok1 && ok2 && finite, &format!("nonsingular system was not solved (panic or non-finite result){}", tag)); }
             }
         }
     }
@@ -264,7 +271,9 @@ fn detinv_f(t: &mut Toks, cx: &mut Ctx) -> String {
                         let cond = a.norm_inf() * inv.norm_inf();
                         let mut e = 0.0f64;
                         for i in 0..n { for j in 0..n { let id = if i == j { 1.0 } else { 0.0 }; e = e.max((i1[(i, j)] - id).abs()).max((i2[(i, j)] - id).abs()); } }
-                        cx.check(e <= 1e-13 * cond.max(1.0) * n as f64 || !e.is_finite() && false, &format!("A*inv(A) off identity by {:e} (cond {:e})", e, cond));
+                        let allfin = (0..n).all(|i| (0..n).all(|j| inv[(i, j)].is_finite()));
+                        cx.check(allfin, "inverse of a nonsingular matrix has non-finite entries");
+                        cx.check(!allfin || e <= 1e-13 * cond.max(1.0) * n as f64, &format!("A*inv(A) off identity by {:e} (cond {:e})", e, cond));
                     } else { cx.fail("inverse of a nonsingular matrix panicked"); }
                 }
             }
@@ -276,7 +285,7 @@ fn detinv_f(t: &mut Toks, cx: &mut Ctx) -> String {
 /// Reference elimination with partial pivoting (independent of the code under test) in the arithmetic of `T`:
 /// does some step meet a pivot sub-column (on and below the diagonal) that is EXACTLY zero?  Then the matrix
 /// is singular to working precision: no elimination in this arithmetic can proceed.
-fn ref_zero_pivot_column<T: Sc>(a: &Matrix<T>) -> bool {
+pub fn ref_zero_pivot_column<T: Sc>(a: &Matrix<T>) -> bool {
     let n = a.rows();
     let mut m: Vec<Vec<T>> = mat_rows(a);
     for k in 0..n {
